@@ -221,6 +221,23 @@ def run(ctx):
         ctx.distinct(("clipath", t, via))
         if want is not None and (r.cls != "ok" or r.stdout.decode() != want):
             ctx.violation("cli-hd-path-selects-the-parsed-path", dict(op="hdwallet export --hd-path", path_text=t, via=via), want.strip(), str(r)[:300])
+    # very deep (hardened) paths through the command line and the library: depth has no limit short of memory
+    deep_runs, deep_want = [], []
+    for depth in (3000, 6000) + ((20000,) if thorough else ()):
+        comps = [(1, rng.choice([0, 1, B31 - 1, rng.randrange(B31)])) for _ in range(depth)]
+        t = "m/" + "/".join("%d'" % v for _, v in comps)
+        key = pyref.bip32_derive(seed, [v | B31 for _, v in comps])
+        deep_runs.append(dict(args=["export", "--mnemonic", phrase, "--hd-path=" + t], timeout=300))
+        deep_want.append((depth, None if key is None else "0x%064x\n" % key, t))
+    dres = ctx.cli(deep_runs, timeout=300)
+    dlib = ctx.harness([("derive", seed, t) for _, _, t in deep_want], timeout=300)
+    for (depth, want, t), r, l in zip(deep_want, dres, dlib):
+        ctx.count("deep-path")
+        ctx.distinct(("deep", depth))
+        if want is not None and (r.cls != "ok" or r.stdout.decode() != want):
+            ctx.violation("cli-hd-path-selects-the-parsed-path", dict(op="hdwallet export --hd-path", depth=depth, path_text=short(t, 60)), want.strip(), str(r)[:300])
+        if want is not None and (l.tag != "ok" or "0x" + l.fields[0].hex() + "\n" != want):
+            ctx.violation("deep-path(library)", dict(op="hdk::derive", depth=depth, path_text=short(t, 60)), want.strip(), str(l)[:300])
     quoted = ["'m/0'", "\"m/0\"", "'m/0''", "m/0''", "m/0\"", "\"m/0'\"", "'m/44'/60'", "`m/0`", "m/0'\"", "m/'0"]
     runs = [dict(args=["export", "--mnemonic", phrase, "--hd-path=" + q], q=q, via="flag") for q in quoted] + \
            [dict(args=["address", "--mnemonic", phrase], env=dict(HD_PATH=q), q=q, via="env") for q in quoted]
